@@ -109,3 +109,46 @@ Definition obs_sb (mask : nat) (steps n : nat) (r : res it) : list Z :=
   | Panic k => c_panic k
   | Ok s => match step_by n s with Ok t => observe_sb mask steps t | Panic k => c_panic k end
   end.
+
+(* ==== (YA) audit additions: is_empty / len along a consumption, MapBasic::abs, the partitions over the real
+   Filter / FilterMap nodes (Model/IterAudit.v), fallible collection of vcut through the raw collector ==== *)
+From Tevec Require Import Model.IterAudit.
+From Tevec Require Model.Collect Model.Driver.
+
+Definition c_resb (r : res bool) : list Z := match r with Ok b => c_bool b | Panic k => c_panic k end.
+Definition c_resn (r : res nat) : list Z := match r with Ok n => c_nat n | Panic k => c_panic k end.
+
+(* at every point of `steps` calls of next(): TrustedLen::is_empty(), TrustedLen::len(), the item *)
+Fixpoint observe_e (mask : nat) (steps : nat) (s : it) : list Z :=
+  c_resb (tis_empty s) ++ c_resn (tlen s) ++
+  match steps with
+  | O => c_sep
+  | S k => let '(o, s') := next s in c_opt (cv mask) o ++ observe_e mask k s'
+  end.
+Definition obs_e (mask steps : nat) (r : res it) : list Z :=
+  match r with Ok s => observe_e mask steps s | Panic k => c_panic k end.
+Definition obs_e_ok (mask steps : nat) (s : it) : list Z := observe_e mask steps s.
+
+Definition obs_abs (steps : nat) (s : it) : list Z := observe 0 (fw steps) (mabs s).
+
+(* the same observation as `observe` over the states of Model/IterAudit.v *)
+Definition f_hint_cells (t : itf) : list Z :=
+  c_nat (fst (f_size_hint t)) ++ c_opt c_nat (snd (f_size_hint t)).
+Fixpoint observe_f (mask : nat) (steps : nat) (t : itf) : list Z :=
+  f_hint_cells t ++ c_nat (length (f_drain t)) ++
+  match steps with
+  | O => cells (cv mask) (f_drain t) ++ c_sep
+  | S k => let '(o, t') := f_next t in c_opt (cv mask) o ++ observe_f mask k t'
+  end.
+
+(* try_collect_trusted_to_vec of a vcut iterator: Ok(len, items) or Err *)
+Definition try_cells (r : option it) : list Z :=
+  match r with
+  | None => c_err
+  | Some s =>
+      match Model.Collect.try_collect_from_trusted Model.Collect.BRaw (as_try_titer s) with
+      | Model.Collect.TErr _ => c_err
+      | Model.Collect.TOk (Model.Driver.Done l) => c_nat (length l) ++ cells cval l
+      | Model.Collect.TOk _ => c_uninit
+      end
+  end.
